@@ -309,6 +309,26 @@ def c17_oracle(case, obs):
     return out
 
 
+def exhaust_oracle(case, obs):
+    """port spaces are per (family, type): UDP/IPv4 may use up its whole range, the next UDP/IPv4 :0 bind
+    fails with AddrInUse, and TCP or IPv6 :0 binds still succeed"""
+    out = []
+    ports = set()
+    n = EPH[1] - EPH[0] + 1
+    for i, (cmd, o) in enumerate(zip(case["script"], obs["steps"])):
+        if i < n:
+            if o["r"] != "ok" or not (EPH[0] <= o["local"][1] <= EPH[1]) or o["local"][1] in ports:
+                out.append(("cmd %d %s: %s; expected a fresh ephemeral port (%d handed out so far)" % (i, cmd, o, len(ports)), None))
+                return out
+            ports.add(o["local"][1])
+        elif i == n:
+            if o["r"] != "AddrInUse":
+                out.append(("cmd %d %s: every ephemeral port is held by a live UDP/IPv4 socket but bind returned %s" % (i, cmd, o["r"]), None))
+        elif o["r"] != "ok":
+            out.append(("cmd %d %s: no live socket of this (family, type) holds any ephemeral port, but bind to port 0 returned %s" % (i, cmd, o["r"]), None))
+    return out
+
+
 def alloc_oracle(case, obs):
     """a result is a port of the range that is not in use; None only when every port is in use"""
     out = []
@@ -371,6 +391,9 @@ class Spec(PropSpec):
         cases += [F.gen_passive_close(rng, variant=v) for v in (0, 1, 2) for _ in range(8 * n)]
         cases += [F.gen_dst_classes(rng) for _ in range(6 * n)]
         cases += [F.gen_failed_connect(rng) for _ in range(24 * n)]
+        cases += [F.gen_addr_order(rng) for _ in range(12 * n)]
+        cases += [F.gen_port_spaces(rng) for _ in range(20 * n)]
+        cases += [F.gen_exhaust(rng)]
         cases += F.gen_alloc_exhaustive() + [F.gen_alloc(rng) for _ in range(60 * n)]
         return cases
 
@@ -387,6 +410,8 @@ class Spec(PropSpec):
             return [] if obs.get("panic") else alloc_oracle(case, obs)
         if "steps" not in obs:
             return []
+        if case["cfg"].get("oracle_only"):
+            return exhaust_oracle(case, obs)
         return c17_oracle(case, obs)
 
     def nontrivial(self, case, obs):
